@@ -249,7 +249,8 @@ Definition tables (c : compiled) :=
    tbl_b_term_types c, tbl_b_param_bits c,
    tbl_c_const_bits_a c, tbl_c_param_bits_a c, tbl_c_const_bits_b c, tbl_c_param_bits_b c,
    tbl_d_const_alpha c, tbl_d_const_beta c, tbl_d_param_bits_a c, tbl_d_param_bits_b c, tbl_d_num_terms c,
-   tbl_phase_indices c, c_has_approx c, tbl_power2 c, tbl_floatfactor c, tbl_approx_is_one c).
+   tbl_phase_indices c, c_has_approx c, tbl_power2 c, tbl_floatfactor c, tbl_approx_is_one c,
+   map (fun g => show_afac (cg_approx g)) (c_graphs c)).
 Definition show_case (gs : list scalar) (ps : list var) (rows : list (list bool)) :=
   match compile_scalar_graphs gs ps with
   | None => None
@@ -260,7 +261,7 @@ Definition show_case (gs : list scalar) (ps : list var) (rows : list (list bool)
 TABLE_FIELDS = ["num_graphs", "n_params", "a_const_phases", "a_param_bits", "a_num_terms", "b_term_types", "b_param_bits",
                 "c_const_bits_a", "c_param_bits_a", "c_const_bits_b", "c_param_bits_b", "d_const_alpha", "d_const_beta",
                 "d_param_bits_a", "d_param_bits_b", "d_num_terms", "phase_indices", "has_approximate_floatfactors", "power2",
-                "floatfactor", "approx_is_one"]
+                "floatfactor", "approx_is_one", "approx_symbolic"]
 
 
 def case_rows(case) -> np.ndarray:
@@ -387,8 +388,8 @@ def harvest(ctx: Ctx, n_circuits: int, max_lists: int):
     seen = set()
     try:
         for i in range(n_circuits):
-            nq = ctx.rng.randrange(2, 6)
-            txt = gen_circuit(ctx.rng, nq, ctx.rng.randrange(10, 36), rot=(i % 3 == 0))
+            nq = ctx.rng.randrange(2, 7)
+            txt = gen_circuit(ctx.rng, nq, ctx.rng.randrange(10, 46), rot=(i % 3 == 0))
             n0 = len(rec)
             try:
                 tsim.Circuit(txt).compile_sampler(seed=1)
@@ -551,6 +552,9 @@ def impl_tables(comp) -> dict:
         if f == "approx_is_one":
             t[f] = [bool(complex(x) == 1.0) for x in np.asarray(comp.approximate_floatfactors).tolist()]
             continue
+        if f == "approx_symbolic":
+            t[f] = [complex(x) for x in np.asarray(comp.approximate_floatfactors).tolist()]
+            continue
         v = getattr(comp, f)
         if isinstance(v, (bool, int)):
             t[f] = v
@@ -691,6 +695,16 @@ def check_case(ctx: Ctx, case, model_out, opaque, mods) -> None:
         m_rows = flat[len(TABLE_FIELDS)]
         tables_i = impl_tables(comp)
         for f in TABLE_FIELDS:
+            if f == "approx_symbolic":
+                # the complex64 factors: opaque float times the folded phases, within single precision
+                for gi, ((aid, rots), z) in enumerate(zip(tables_m[f], tables_i[f])):
+                    want_f = 1.0 if aid == -1 else opaque[aid]
+                    for pn, pd in rots:
+                        want_f = want_f * cmath.exp(1j * math.pi * pn / pd)
+                    if abs(z - want_f) > 2e-6 * max(1.0, abs(want_f)):
+                        ctx.broken.append(f"correspondence:approximate_floatfactors[{gi}] = {z}, model says {want_f} on {name}")
+                        break
+                continue
             if not tables_equal(tables_m[f], tables_i[f]):
                 ctx.broken.append(f"correspondence:table {f} differs on {name}: model {str(tables_m[f])[:200]} impl {str(tables_i[f])[:200]}")
                 break
@@ -736,6 +750,9 @@ def check_case(ctx: Ctx, case, model_out, opaque, mods) -> None:
             tol = 1e-5 * max(ref_scale[ri], 1e-30)
         tol = max(tol, 1e-5 * abs(want), 1e-37)
         ctx.count((name, ri), nontrivial=bool(kinds), bucket=bucket)
+        if m_rows is not None:
+            k_ = "rows_inside_nowrap_guard" if guard else "rows_outside_nowrap_guard"
+            ctx.cov[k_] = ctx.cov.get(k_, 0) + 1
         if not (abs(got[ri] - want) <= tol):
             if worst is None:
                 worst = (ri, got[ri], want, tol, guard)
@@ -905,7 +922,7 @@ def run(ctx: Ctx) -> int:
 
     cases = synthetic(ctx)
     try:
-        cases += harvest(ctx, 8 if ctx.quick else 60, 14 if ctx.quick else 90)
+        cases += harvest(ctx, 24 if ctx.quick else 120, 20 if ctx.quick else 120)
     except Exception as e:  # noqa
         ctx.broken.append(f"harvest: pipeline could not be run: {type(e).__name__}: {str(e)[:200]}")
     for c in cases:
@@ -965,6 +982,9 @@ def replay(ctx: Ctx, obj) -> int:
         print(json.dumps(r)[:2000])
         return 1
     case = {k: r[k] for k in ("name", "origin", "params", "graphs", "rows", "batch") if k in r}
-    before = len(ctx.violations)
+    before = len(ctx.violations) + len(ctx.known_hits)
     check_case(ctx, case, None, [], mods)
-    return 1 if len(ctx.violations) > before else 0
+    bad = len(ctx.violations) + len(ctx.known_hits) > before
+    print("replay: the implementation still differs from the reference on this input" if bad else
+          "replay: evaluate(compile(..)) now equals the sum of evaluate_scalar on this input")
+    return 1 if bad else 0
